@@ -221,12 +221,15 @@ fn exec_port_flood(seed: u64) -> (Vec<u128>, String, String) {
         let per = r.range(1, 3) as usize;
         let dup = r.chance(1, 4);
         let ver: u8 = if r.chance(1, 4) { 2 } else { 3 };
-        let sig = format!("ep:flood:{}", if dup { "dup" } else { "nolast" });
+        // third kind: a local sender is blocked on flow credits when the peer violates the protocol; the protocol error
+        // must reach that user too
+        let blocked = !dup && r.chance(1, 3);
+        let sig = format!("ep:flood:{}", if dup { "dup" } else if blocked { "blocked" } else { "nolast" });
         let cfg = Cfg { connection_timeout: None, max_received_ports: maxp, max_ports: 1000, connect_queue: 4, ..Default::default() };
         let net = Net::new(true);
         let hello = MultiplexMsg::Hello {
             version: ver,
-            cfg: ExchangedCfg { connection_timeout: None, chunk_size: 1 << 16, port_receive_buffer: 1 << 20, connect_queue: 1000 },
+            cfg: ExchangedCfg { connection_timeout: None, chunk_size: 1 << 16, port_receive_buffer: if blocked { 16 } else { 1 << 20 }, connect_queue: 1000 },
         };
         net.b2a.inject(Bytes::from(encode(&MultiplexMsg::Reset)));
         net.b2a.inject(Bytes::from(encode(&hello)));
@@ -253,6 +256,67 @@ fn exec_port_flood(seed: u64) -> (Vec<u128>, String, String) {
         quiesce().await;
         let local = rx.local_port();
         let mut next = 100u32;
+        if blocked {
+            let mut tx = _tx;
+            let kind = r.below(3);
+            let send = tokio::spawn(async move {
+                let res = match kind {
+                    0 => tx.send(Bytes::from(vec![1u8; 200])).await.is_err(),
+                    1 => {
+                        let alloc = tx.port_allocator();
+                        let mut ports = Vec::new();
+                        for _ in 0..8 {
+                            ports.push(PortReq::new(alloc.allocate().await));
+                        }
+                        tx.connect(ports, true).await.is_err()
+                    }
+                    _ => {
+                        let mut cs = tx.send_chunks();
+                        let mut failed = false;
+                        for _ in 0..8 {
+                            match cs.send(Bytes::from(vec![2u8; 10])).await {
+                                Ok(next) => cs = next,
+                                Err(_) => {
+                                    failed = true;
+                                    break;
+                                }
+                            }
+                        }
+                        failed
+                    }
+                };
+                res
+            });
+            quiesce().await;
+            quiesce().await;
+            if send.is_finished() {
+                return (sig, "FAIL: harness: the send was not blocked".into());
+            }
+            // the peer violates the protocol
+            let bad = match r.below(3) {
+                0 => MultiplexMsg::Data { port: 99_999, first: true, last: true },
+                1 => MultiplexMsg::Hello { version: ver, cfg: ExchangedCfg { connection_timeout: None, chunk_size: 1 << 16, port_receive_buffer: 16, connect_queue: 1000 } },
+                _ => MultiplexMsg::PortCredits { port: 99_998, credits: 5 },
+            };
+            net.b2a.inject(Bytes::from(encode(&bad)));
+            if let MultiplexMsg::Data { .. } = bad {
+                net.b2a.inject(Bytes::from(vec![0u8; 3]));
+            }
+            for _ in 0..4 {
+                quiesce().await;
+            }
+            if !run.is_finished() {
+                return (sig, "FAIL: C08 a protocol violation did not end the connection".into());
+            }
+            if !send.is_finished() {
+                return (sig, "FAIL: C08 a sender blocked on flow credits does not observe the protocol error that ended the connection (it hangs)".into());
+            }
+            return match send.await {
+                Ok(true) => (sig, "ok".into()),
+                Ok(false) => (sig, "FAIL: C08 a blocked send completed successfully after the connection ended with a protocol error".into()),
+                Err(_) => (sig, "FAIL: C08 panic in a send".into()),
+            };
+        }
         if dup {
             let ids = if ver >= 3 { Some(vec![7, 7]) } else { None };
             net.b2a.inject(Bytes::from(encode(&MultiplexMsg::PortData { port: local, first: true, last: true, wait: false, ports: vec![7, 7], ids })));
